@@ -19,6 +19,7 @@ fn main() {
         "vm" => e_vm::run(&a),
         "graph" => e_graph::run(&a),
         "sched" => e_graph::run_sched(&a),
+        "post" => e_graph::run_post(&a),
         "types" => e_types::run(&a),
         "sign" => e_sign::run(&a),
         other => { eprintln!("unknown engine {other}"); std::process::exit(2); }
